@@ -126,28 +126,32 @@ def fromGapped (s : List Bool) : IMap :=
   let cum := cumsum (runs.map (·.2))
   ⟨shiftPos 0 (runs.map (·.1)) cum, cum, ((s.filter (! ·)).length : Int)⟩
 
+/-- flatten()[1:-1] reshaped to pairs (end of segment i, start of segment i+1) -/
+def gapPairs : List Int → List (Int × Int)
+  | a :: b :: r => (a, b) :: gapPairs r
+  | _ => []
+
 /-- `IndelMap.from_aligned_segments(locations, aligned_length)` -/
 def fromAlignedSegments (locs : List (Int × Int)) (alignedLength : Int) : Except Err IMap :=
-  match locs with
-  | [] => .ok (emptyMap alignedLength)
-  | first :: _ =>
-    if locs.length = 1 ∧ first.1 = 0 ∧ first.2 = alignedLength then .ok (emptyMap alignedLength) else
-    let locs := if first.1 ≠ 0 then (0, 0) :: locs else locs
-    let lastEnd := match locs.getLast? with | some l => l.2 | none => 0
-    let locs := if lastEnd < alignedLength then locs ++ [(alignedLength, alignedLength)] else locs
-    -- flatten()[1:-1] reshaped to pairs (end of segment i, start of segment i+1)
-    let flat := (locs.flatMap fun l => [l.1, l.2]).drop 1 |>.dropLast
-    let rec pairs : List Int → List (Int × Int)
-      | a :: b :: r => (a, b) :: pairs r
-      | _ => []
-    let gc := pairs flat
-    let gapStarts := gc.map (·.1)
-    let lengths := gc.map fun g => g.2 - g.1
-    let cum := cumsum lengths
-    let gp := shiftPos 0 gapStarts cum
-    -- `cum_lens[-1]` on an empty array raises IndexError
-    if cum = [] then .error .indexError else
-    mk gp cum (alignedLength - lastD cum)
+  let full : Bool := match locs with
+    | [first] => first.1 = 0 ∧ first.2 = alignedLength
+    | _ => false
+  if (locs = [] ∧ alignedLength = 0) ∨ full then .ok (emptyMap alignedLength) else
+  -- no ungapped segment: the whole row is one gap; otherwise a leading gap needs a (0, 0) sentinel
+  let locs := match locs with
+    | [] => [(0, 0)]
+    | first :: _ => if first.1 ≠ 0 then (0, 0) :: locs else locs
+  let lastEnd := match locs.getLast? with | some l => l.2 | none => 0
+  let locs := if lastEnd < alignedLength then locs ++ [(alignedLength, alignedLength)] else locs
+  let flat := (locs.flatMap fun l => [l.1, l.2]).drop 1 |>.dropLast
+  let gc := gapPairs flat
+  let gapStarts := gc.map (·.1)
+  let lengths := gc.map fun g => g.2 - g.1
+  let cum := cumsum lengths
+  let gp := shiftPos 0 gapStarts cum
+  -- `cum_lens[-1]` on an empty array raises IndexError
+  if cum = [] then .error .indexError else
+  mk gp cum (alignedLength - lastD cum)
 
 /-- `gap_coords_to_map(gaps_lengths, seq_length)`; the dict arrives as its item list -/
 def gapCoordsToMap (items : List (Int × Int)) (seqLength : Int) : Except Err IMap :=
